@@ -80,6 +80,7 @@ type frame struct {
 	phitemps         []value
 	callPos          token.Pos
 	pending          []ssa.Instruction // lazy instructions not yet evaluated
+	cur              ssa.Instruction   // instruction being executed (for site attribution)
 }
 
 func (fr *frame) get(key ssa.Value) value {
@@ -611,6 +612,7 @@ func runFrame(fr *frame) {
 					}
 				}
 			}
+			fr.cur = instr
 			if visitInstr(fr, instr) == kReturn {
 				return
 			}
@@ -793,6 +795,7 @@ type Violation struct {
 	Trail   []Decision `json:"-"`
 	Sched   []int    `json:"sched,omitempty"`
 	Obs     []string `json:"observed,omitempty"`
+	Gates   []GateStep `json:"gates,omitempty"`
 }
 
 type NDVal struct {
@@ -813,6 +816,7 @@ type PathResult struct {
 	NewItems     int
 	Obligations  int
 	UsedUF       bool
+	Concurrent   bool
 	Nondets      []NDVal
 	Outputs      []string
 }
@@ -876,6 +880,7 @@ type Machine struct {
 	curFn      *ssa.Function
 	fixedPos   int
 	termLabel  string
+	gates      []GateStep
 	hostWG  sync.WaitGroup
 }
 
